@@ -55,7 +55,9 @@ RULE = ("(1) converter trees: every tree of depth <= 1 over 13 leaf kinds (plain
         "isinstance (an Enum class, an ABC and its concrete subclass, a class with a custom "
         "metaclass; str-subclass and StrEnum names; an Attribute subclass instance) and junk: all "
         "subsets of size <= 2 over the 21 items and all subsets of the 8 in both tiers, all 8192 core "
-        "subsets in the thorough tier, random ones; each probed on all 60 (attribute, value) pairs "
+        "subsets in the thorough tier, random ones; each probed on all 90 (attribute, value) pairs "
+        "(attributes incl. three whose alias differs from the name: private, explicit alias, alias equal to "
+        "another field's name - with those names and aliases among the listed names) "
         "(values incl. an Enum member, an ABC-subclass instance, a custom-metaclass instance), plus "
         "shuffled/duplicated spellings.  (4) cmp_using: all 64 configurations x 23 value pairs (same "
         "class, unrelated classes, identical object, subclass-related classes in both operand orders: "
@@ -1087,6 +1089,15 @@ def enc_attr(a):
     return "(A_ %s %d)" % (q(a.name), _attr_rest(a))
 
 
+def _probe_table():
+    return lst("(%s, %d)" % (enc_attr(a), F_TYPES.index(type(v))) for a in F_ATTRS for v in F_VALUES)
+
+
+# every (attribute, value) probe, as (Attribute, number of the value's exact class); part of every case file
+HEADER = HEADER + "\nFrom Coq Require Import List String.\nImport ListNotations.\nOpen Scope string_scope.\n" \
+    "Definition fprobes : list (attribute * nat) := %s." % _probe_table()
+
+
 def what_obj(item):
     kind, p = item
     if kind == "type":
@@ -1118,17 +1129,17 @@ def mk_filter_case(inp):
     objs = [what_obj(i) for i in items]
     inc = filters.include(*objs)
     exc = filters.exclude(*objs)
-    probes, seen, sj = [], [], []
+    seen, sj = [], []
     for a in F_ATTRS:
         for v in F_VALUES:
             ri, re_ = inc(a, v), exc(a, v)
             if not (isinstance(ri, bool) and isinstance(re_, bool)):
                 # not a bool: the model cannot say that; force a mismatch by an extra observation
-                seen.append("(true, true)")
-            probes.append("(%s, %d)" % (enc_attr(a), F_TYPES.index(type(v))))
-            seen.append("(%s, %s)" % (b(bool(ri)), b(bool(re_))))
+                seen.append("Ptt")
+            seen.append("P%s%s" % ("t" if ri else "f", "t" if re_ else "f"))
             sj.append([bool(ri), bool(re_)])
-    term = "(KFilter %s %s %s)" % (lst(enc_witem(i) for i in items), lst(probes), lst(seen))
+    # the probe table (every attribute x every value) is defined once, in HEADER, as `fprobes`
+    term = "(KFilter %s fprobes %s)" % (lst(enc_witem(i) for i in items), lst(seen))
     ext = any(tuple(i) in F_EXTENDED for i in items)
     return Case(term, inp, sj, sig={"part": "filters", "what_has_isinstance_only_item": ext,
                                     "what_names_alias_or_private_field": any(tuple(i) in F_ALIAS for i in items)},
